@@ -1569,9 +1569,9 @@ class DynamicBase(BaseSpaceImpl):
 
     def on_namespace_change(self):
         ItemSpaceParent.on_namespace_change(self)
-        # Use dict instead of list to avoid duplicates
-        for r in {s.rootspace: True for s in self._dynamic_subs}:
-            r.del_all_itemspaces()
+        # Delete the root ItemSpaces of the dynamic spaces
+        # built from this space
+        self.clear_subs_rootitems()
 
     def change_dynsub_refs(self, name):
 
